@@ -9,7 +9,7 @@ from .interp import PyRaise, mk_fd_apply, CONTROL, SymMethod
 def _items(x):
     if isinstance(x, SymArray):
         return list(x.items)
-    if isinstance(x, tuple) and len(x) == 2 and x[0] == "__vstack__":
+    if isinstance(x, tuple) and len(x) == 2 and isinstance(x[0], str) and x[0] == "__vstack__":
         return list(x[1])
     return x
 
@@ -168,6 +168,8 @@ def call_model(I, fn, args, kwargs):
         return SymArray(list(x), any(isinstance(pyscalar(i), float) for i in x if not is_sym(i)))
     if fn is np.power or fn is pow:
         a, b = args[:2]
+        if I.pow10 is not None and not is_sym(a) and a == 10 and (isinstance(b, Sym) and b.kind == "real"):
+            return I.pow10.power(I, b)
         return I.binop(ast.Pow(), a, b)
     if fn is np.mod:
         a, b = args
@@ -175,7 +177,7 @@ def call_model(I, fn, args, kwargs):
     if fn is np.vstack:
         rows = []
         for r in list(args[0]):
-            if isinstance(r, tuple) and len(r) == 2 and r[0] == "__vstack__":
+            if isinstance(r, tuple) and len(r) == 2 and isinstance(r[0], str) and r[0] == "__vstack__":
                 rows.extend(r[1])
             elif isinstance(r, np.ndarray):
                 if r.ndim == 1:
@@ -220,6 +222,10 @@ def call_model(I, fn, args, kwargs):
         if not args:
             return fn()
         x = args[0]
+        if isinstance(x, WhereResult):
+            g = GList([(I.canon(I.truth(m)), i) for i, m in enumerate(x.mask.items)])
+            g.is_set = True
+            return g
         if isinstance(x, GList):
             return x
         its = I.iterate(x)
@@ -236,6 +242,18 @@ def call_model(I, fn, args, kwargs):
     if fn is range:
         return range(*[I.concretize(a, "range bound") for a in args])
     if fn is sorted:
+        if isinstance(args[0], GList) and not kwargs and all(not is_sym(v) for _, v in args[0].items):
+            vals = [v for _, v in args[0].items]
+            if vals == sorted(vals):
+                return GList(list(args[0].items))      # a list now, no longer a set
+        if not kwargs and not isinstance(args[0], GList):
+            its0 = I.iterate(args[0])
+            if len(its0) == 2 and any(is_sym(v) for v in its0):
+                a0, b0 = its0
+                t = I.truth(I.binop(ast.LtE(), a0, b0))
+                if isinstance(t, bool):
+                    return [a0, b0] if t else [b0, a0]
+                return [I.merge(t, a0, b0), I.merge(t, b0, a0)]
         its = I.iterate(args[0])
         if any(I.deep_symbolic(i) for i in its):
             raise Unsupported("sorted() of symbolic elements")
